@@ -390,7 +390,7 @@ func runC01(ctx *core.Ctx) {
 		kh := le32(k)
 		k2 := le32(S[(i*7+3)%len(S)])
 		for qi, q := range qs {
-			if (i+qi)%tierN(ctx, 3, 1) != 0 {
+			if (i+qi)%sz(ctx, 3, 3, 1) != 0 {
 				continue
 			}
 			for recv := 0; recv < 4; recv++ {
